@@ -1,16 +1,20 @@
 """C13 — Applying calibration: composition, invalid-gain handling and invertibility (correspondence + search).
 
-Three streams, all driven by explicit JSON-able configurations (a replay file carries the whole configuration):
+Three streams (v4 and invert also reopen the same store with preselect=... and compare with the fully opened data set), all driven by explicit JSON-able configurations (a replay file carries the whole configuration):
 
 direct   katdal.applycal.calc_correction on a SensorCache holding generated `Calibration/Corrections/...` sensors
          (ndarray and CategoricalData forms), then the three numba kernels through dask elemwise exactly as
          VisibilityDataV4._make_corrected does; compared for EQUALITY with the extracted Coq model (tie: block-wise
          evaluation over the same chunking) and the extracted Coq spec (property: pointwise product formula, the
          product's own channelisation).
-v4       full data sets (fixtures.v4.build_v4 + a 'cal' stream in telstate) opened with applycal=...; the
-         correction sensors katdal derived from the solutions are read back and are the model's given inputs
-         (the derivation itself is C14); corrected vis / weights / raw flags under random selections and
-         second-stage indexing are compared for equality with model and spec.
+v4       full data sets (fixtures.v4.build_v4 + a 'cal' stream in telstate, B optionally a multi-part "split cal"
+         product whose parts have solutions at different times) opened with applycal=...; the correction sensors
+         katdal derived from the solutions are read back and are the model's inputs (tie); the corrections the
+         SOLUTIONS call for are derived independently by the harness (expected_corrections) and are the spec's
+         inputs (property, end to end: a missing solution must leave vis as stored, weight 0, postproc); corrected
+         vis / weights / raw flags under random selections and second-stage indexing are compared for equality.
+         The same store reopened with preselect={'channels','dumps'} must equal the fully opened data set on the
+         loaded dumps/channels and the spec on the loaded subset.
 invert   v4 data sets whose stored visibilities were corrupted by known complex per-input gains, delays and
          bandpasses, same solutions at every dump: corrected vis within REL_TOL of the clean ones (the one clause of
          the property that says "to within single-precision rounding").
@@ -28,15 +32,25 @@ RULE = ('direct: 1-4 cal products from 1-2 streams (own channel counts and centr
         'with weights matched so that the float32 division is exact), NaN and zero at random positions, ndarray or '
         'categorical sensors, shuffled/duplicated corrprod pairs, random chunkings on all three axes, a second '
         'chunking and a random loaded subset; v4: real positive power-of-two G (with or without channel axis), '
-        'B with NaN edges, K zero/NaN solutions through katdal.open-equivalent data sets, shuffled bls_ordering, '
-        'random selections; invert: complex gains/delays/bandpasses.  A case is one configuration; non-trivial when '
+        'B (one value per input and solution time, NaN band edges / inputs / single solutions; single or split '
+        'into 2-3 parts whose solution times are random subsets of a common set, parts absent altogether), '
+        'K zero/NaN solutions through katdal.open-equivalent data sets, shuffled bls_ordering, random selections; '
+        'the corrections every input must get are derived from the SOLUTIONS by the harness and the spec is '
+        'evaluated on those; every third case has a multi-part B with a part lacking a solution another part has, '
+        'every third is reopened with preselect on channels (+dumps), 60% of the rest with preselect (channels '
+        '[a,b), dumps [a,b) or both), and compared with the fully opened one on the same dumps/channels; invert: complex '
+        'gains/delays/bandpasses, 75% also reopened with preselect.  A case is one configuration; non-trivial when '
         'at least one factor is finite and not 1 and (direct, v4) at least one factor is NaN or two products '
         'are combined; distinct by the whole configuration')
 ASSUMPTIONS = ['correction values are finite or NaN (infinite corrections are outside the model: inf*0 is NaN in IEEE)',
                'generated gains keep every complex64 product, |factor|^2 and the weight division exact in float32 '
                '(checked by the harness against a float64 evaluation); rounding is not verified',
-               'the solutions-to-corrections interpolation (C14) is taken as given: in the v4 stream the correction '
-               'sensors are read back from the data set',
+               'v4 stream: the model (tie) runs on the correction sensors read back from the data set; the spec '
+               '(property) runs on corrections derived by the harness from the solutions put into telstate, which is '
+               'exact only for the generated class (G constant in time per input, B constant over the band per input '
+               'and solution time, K delays 0/NaN); general interpolation in time/frequency is C14',
+               'a preselected data set is generated only when every K/B product has a solution before the end of the '
+               'loaded dumps (otherwise katdal has no sensor value and raises)',
                'invert stream tolerance: |corrected - clean| <= 2^-16 * (1 + number of products) * max(|clean|, 1) per component']
 
 warnings.simplefilter('ignore')
@@ -366,8 +380,10 @@ def features(cfg, m):
     return maps, cause
 
 
-def compare(ctx, cfg, impl, m, route):
-    """impl: dict corr/vis/weights/flags arrays for the full (or selected) grid; m: model arrays on the same grid."""
+def compare(ctx, cfg, impl, m, route, sides=('model', 'spec'), spec_name='spec', tag=''):
+    """impl: dict corr/vis/weights/flags arrays for the full (or selected) grid; m: model arrays on the same grid.
+    spec_name / tag: how the spec side is called in the signature and an extra shape suffix (v4 stream: the spec
+    is evaluated on corrections derived from the SOLUTIONS by the harness, not on those katdal derived)."""
     maps, cause = features(cfg, m)
     ok = True
     case = cfg
@@ -376,7 +392,7 @@ def compare(ctx, cfg, impl, m, route):
             continue
         a = impl[obs]
         for side, key, kind in (('model', obs, 'tie'), ('spec', 'spec_' + obs, 'property')):
-            if key not in m or (m.get('fallback') and side == 'model'):
+            if side not in sides or key not in m or (m.get('fallback') and side == 'model'):
                 continue
             b = m[key]
             if a.shape != b.shape:
@@ -395,8 +411,10 @@ def compare(ctx, cfg, impl, m, route):
             if not eq.all():
                 at = tuple(int(x) for x in np.argwhere(~eq)[0])
                 sym = 'nan_mismatch' if (cmpf is not None and (np.isnan(a[at]) != np.isnan(b[at]))) else 'wrong_value'
-                sig = 'route=%s;obs=%s;vs=%s;symptom=%s;cause=%s' % (route, obs, side, sym,
-                                                                    cause if side == 'spec' else 'tie')
+                if side == 'spec' and tag and obs != 'corr' and np.isnan(m['corr'][at]):
+                    sym = 'not_left_as_invalid_where_solution_missing'
+                sig = 'route=%s;obs=%s;vs=%s;symptom=%s;cause=%s' % (route, obs, spec_name if side == 'spec' else side,
+                                                                    sym, (cause if side == 'spec' else 'tie')) + tag
                 ctx.disagree(sig, case, dict(at=at, value=str(a[at])), dict(at=at, value=str(b[at])),
                              'corrected %s differs from the %s at %s (maps %s)' % (obs, side, at, maps),
                              spec=str(m['spec_' + obs][at]) if 'spec_' + obs in m else None, kind=kind)
@@ -456,48 +474,100 @@ def _pow2(e):
     return [2.0 ** e, 0.0]
 
 
-def gen_v4(rng, tier='quick'):
-    """Exact stream: real positive power-of-two solutions (constant in time per input, NaN events / inputs /
-    band edges), so every derived correction is an exact power of two, 1 or NaN."""
+def gen_v4(rng, tier='quick', force=None):
+    """Exact stream: real positive power-of-two solutions (G constant in time per input; B constant over the band
+    per input and solution time; NaN events / inputs / band edges; K zero or NaN), so every correction is an exact
+    power of two, 1 or NaN and can be derived from the SOLUTIONS by the harness (expected_corrections).
+    B may be a multi-part ("split cal") product whose parts have solutions at different times; the data set may be
+    opened with preselect={'channels': ..., 'dumps': ...}."""
+    force = force or {}
     n_ant = rng.randint(2, 3)
     ants = ['m%03d' % a for a in range(n_ant)]
-    T, F = rng.randint(3, 7), rng.randint(3, 8)
+    types = rng.sample(['G', 'B', 'K'], rng.randint(1, 3))
+    if force.get('parts') and 'B' not in types:
+        types.append('B')
+    n_parts = 1
+    if 'B' in types and (force.get('parts') or rng.random() < 0.5):
+        n_parts = rng.choice([2, 2, 3])
+    T = rng.randint(3, 7)
+    mode = rng.choice(['same', 'shifted', 'other'])
+    if n_parts > 1 and mode != 'other':
+        F = n_parts * rng.randint(1 if n_parts == 3 else 2, 8 // n_parts)
+    else:
+        F = rng.randint(3, 8)
     chan_w = 1048576.0
     cf = 1284e6
-    mode = rng.choice(['same', 'shifted', 'other'])
-    n_cal = F if mode != 'other' else rng.choice([k for k in range(2, F + 3) if k != F])
+    if mode != 'other':
+        n_cal = F
+    elif n_parts > 1:
+        n_cal = rng.choice([k for k in range(n_parts, F + 4, n_parts) if k != F])
+    else:
+        n_cal = rng.choice([k for k in range(2, F + 3) if k != F])
     shift = 0 if mode == 'same' else rng.choice([-2, -1, 1, 2])
     cal_bw = F * chan_w if mode != 'other' else F * chan_w * rng.choice([1, 1, 2])
     antlist = list(ants)
     rng.shuffle(antlist)
     pols = rng.choice([['v', 'h'], ['h', 'v']])
-    types = rng.sample(['G', 'B', 'K'], rng.randint(1, 3))
     products = {}
+    parts = {}
     nan_input = (rng.randrange(2), rng.randrange(n_ant)) if rng.random() < 0.4 else None
+    first_hold = []                       # first solution dump of every product held from its first solution on
     for t in types:
         exps = [[rng.randint(-3, 3) for _ in range(n_ant)] for _ in range(2)]
         cexp = [rng.randint(-1, 1) for _ in range(n_cal)]      # constant in time: interpolation stays exact
         g_with_chans = rng.random() < 0.4
+        n_ev = rng.randint(2 if (t == 'B' and n_parts > 1) else 1, min(4 if t == 'B' else 3, T + 1))
+        evs = sorted(rng.sample(range(-1, T), n_ev))
         events = []
-        for dump in sorted(rng.sample(range(-1, T), rng.randint(1, min(3, T + 1)))):
+        for dump in evs:
             if t == 'K':
                 arr = [[(None if rng.random() < 0.2 else 0.0) for _ in range(n_ant)] for _ in range(2)]
             elif t == 'G' and not g_with_chans:
                 arr = [[None if ((p, a) == nan_input or rng.random() < 0.1) else _pow2(exps[p][a])
                         for a in range(n_ant)] for p in range(2)]
+            elif t == 'G':
+                arr = [[[None if (p, a) == nan_input else _pow2(exps[p][a] + cexp[k])
+                         for a in range(n_ant)] for p in range(2)] for k in range(n_cal)]
             else:
-                # B (and G with a channel axis): constant per input, NaN at band edges or whole inputs
+                # B: one value per input and SOLUTION TIME over the whole band (every part), NaN at band edges,
+                # whole inputs, or one input at one solution time
                 lo, hi = rng.randint(0, 1), n_cal - rng.randint(0, 1)
-                if t == 'G':
-                    arr = [[[None if (p, a) == nan_input else _pow2(exps[p][a] + cexp[k])
-                             for a in range(n_ant)] for p in range(2)] for k in range(n_cal)]
-                else:
-                    arr = [[[None if ((p, a) == nan_input or not lo <= k < hi) else _pow2(exps[p][a])
-                             for a in range(n_ant)] for p in range(2)] for k in range(n_cal)]
+                delta = rng.randint(-1, 1)
+                dead = {(p, a) for p in range(2) for a in range(n_ant) if rng.random() < 0.08}
+                arr = [[[None if ((p, a) == nan_input or (p, a) in dead or not lo <= k < hi)
+                         else _pow2(exps[p][a] + delta) for a in range(n_ant)] for p in range(2)] for k in range(n_cal)]
             events.append([dump, arr])
-        products[t] = events
+        if t == 'B' and n_parts > 1:
+            per = n_cal // n_parts
+            keeps = []
+            for q in range(n_parts):
+                if rng.random() < 0.1:
+                    keeps.append([])                                   # this part has no sensor at all
+                else:
+                    keeps.append([e for e in evs if rng.random() < 0.65])
+            if not any(keeps):
+                keeps[rng.randrange(n_parts)] = list(evs)
+            if rng.random() < 0.75:
+                # make sure some part (mostly one at a band edge: an interior gap is interpolated over) lacks a
+                # solution at a time at which another part has one, and has a LATER one
+                q = rng.choice([0, n_parts - 1, rng.randrange(n_parts)])
+                j = rng.randrange(len(evs) - 1)
+                keeps[q] = sorted((set(keeps[q]) - {evs[j]}) | {rng.choice(evs[j + 1:])})
+                o = rng.choice([k for k in range(n_parts) if k != q])
+                keeps[o] = sorted(set(keeps[o]) | {evs[j]})
+            for q, keep in enumerate(keeps):
+                if keep:
+                    products['B%d' % q] = [[e, arr[q * per:(q + 1) * per]] for e, arr in events if e in keep]
+            parts['B'] = n_parts
+            first_hold.append(min(e for keep in keeps for e in keep))
+        else:
+            products[t] = events
+            if t != 'G':
+                first_hold.append(evs[0])
     cal = dict(antlist=antlist, pol_ordering=pols, center_freq=cf + shift * chan_w, bandwidth=cal_bw, n_chans=n_cal,
                products=products)
+    if parts:
+        cal['parts'] = parts
     applycal = ['l1.' + t for t in types]
     rng.shuffle(applycal)
     sel = {}
@@ -514,10 +584,165 @@ def gen_v4(rng, tier='quick'):
         sel['pol'] = rng.choice(['hh', 'vv', 'hv', 'vh', 'h', 'v'])
     elif r < 0.6:
         sel['corrprods'] = rng.choice(['auto', 'cross'])
+    # the same data set opened with preselect=...: a K/B product needs a solution before the end of the loaded
+    # dumps (otherwise katdal has no value for the sensor at all and raises: outside the property)
+    pre = {}
+    if force.get('pre') or rng.random() < 0.6:
+        which = force.get('pre') or rng.choice(['channels', 'channels', 'dumps', 'both'])
+        if which in ('channels', 'both'):
+            a = rng.randrange(F)
+            pre['channels'] = [a, rng.randint(a + 1, F)]
+        if which in ('dumps', 'both'):
+            a = rng.randrange(T)
+            b = rng.randint(a + 1, T)
+            if all(e < b for e in first_hold):
+                pre['dumps'] = [a, b]
     return dict(route='v4', T=T, F=F, ants=ants, chan_w=chan_w, cf=cf, cal=cal, applycal=applycal, select=sel,
-                seed=rng.randrange(10 ** 6), shuffle_bls=rng.random() < 0.5,
+                preselect=pre, seed=rng.randrange(10 ** 6), shuffle_bls=rng.random() < 0.5,
                 chunks=[compositions(rng, T), compositions(rng, F)],
                 index=[rng.choice([None, 1, 2]), rng.choice([None, 1, 2])])
+
+
+# --------------------------------------------------------------------------- corrections expected from the SOLUTIONS
+# Harness-side rendering of the clause "wherever the factor is not a number, as results from missing, zero or invalid
+# solutions": which correction each input must get at each dump and data channel, derived from the cal solutions put
+# into telstate (NOT read back from katdal).  Exact for the class gen_v4 generates:
+#   K  delays 0 / NaN                          -> correction 1 (an invalid delay is replaced by zero)
+#   G  one value per input, constant in time   -> 1/value at every dump if the input has a valid solution among
+#                                                 the solutions seen by the data set, else NaN
+#   B  one value per input and solution time   -> the solution in force at the dump = the last one at or before it
+#      (parts: a part contributes to the solution of time t only if it has a solution AT t, else its channels are
+#      missing); 1/value on the data channels within the frequency span of its valid cal channels, NaN outside
+def _kept_events(events, dumps):
+    """solutions seen by a data set holding dumps [a, b): -> {relative dump: value}; solutions before the first dump
+    collapse onto dump 0 (the last one wins, a solution inside dump 0 wins over those), later ones are dropped."""
+    a, b = dumps
+    out = {}
+    for e, v in sorted(events, key=lambda ev: ev[0]):
+        if e < b:
+            out[max(e - a, 0)] = v
+    return out
+
+
+def _in_force(kept, t, hold_back):
+    keys = sorted(kept)
+    le = [k for k in keys if k <= t]
+    if le:
+        return kept[le[-1]]
+    return kept[keys[0]] if (hold_back and keys) else None
+
+
+def stitched_events(cal, t):
+    """solutions of product type t over the cal stream's channels, multi-part products stitched by solution time."""
+    n_parts = cal.get('parts', {}).get(t)
+    if not n_parts:
+        return [[e, arr] for e, arr in cal['products'].get(t, [])]
+    per = cal['n_chans'] // n_parts
+    part = [dict((e, arr) for e, arr in cal['products'].get('%s%d' % (t, q), [])) for q in range(n_parts)]
+    times = sorted({e for p in part for e in p})
+    n_pol, n_ant = len(cal['pol_ordering']), len(cal['antlist'])
+    missing = [[[None] * n_ant for _ in range(n_pol)] for _ in range(per)]
+    return [[e, [row for p in part for row in p.get(e, missing)]] for e in times]
+
+
+def expected_corrections(vcfg, inputs, data_freqs, dumps):
+    from fixtures import c13cal
+    cal = vcfg['cal']
+    n = dumps[1] - dumps[0]
+    F = len(data_freqs)
+    cal_freqs = c13cal.cal_channel_freqs(cal)
+    index = {ant + pol: (p_i, a_i) for p_i, pol in enumerate(cal['pol_ordering'])
+             for a_i, ant in enumerate(cal['antlist'])}
+    nan = np.complex64(complex(np.nan, np.nan))
+
+    def inv(v):
+        return nan if v is None else np.complex64(1.0 / v[0])
+    out = {}
+    for name in vcfg['applycal']:
+        t = name.split('.')[1]
+        kept = _kept_events(stitched_events(cal, t), dumps)
+        per_input = []
+        for inp in inputs:
+            p_i, a_i = index[inp]
+            if t == 'K':
+                per_input.append([np.ones(F, np.complex64)] * n)
+            elif t == 'G':
+                vals = list(kept.values())
+                if not vals:
+                    g = np.array([nan])
+                elif _shape_of(vals[0]) == 2:
+                    ok = [v[p_i][a_i] for v in vals if v[p_i][a_i] is not None]
+                    g = np.array([inv(ok[0]) if ok else nan])
+                else:
+                    g = []
+                    for k in range(len(vals[0])):
+                        ok = [v[k][p_i][a_i] for v in vals if v[k][p_i][a_i] is not None]
+                        g.append(inv(ok[0]) if ok else nan)
+                    g = np.array(g)
+                per_input.append([g] * n)
+            else:
+                per = []
+                for d in range(n):
+                    v = _in_force(kept, d, True)
+                    col = [v[k][p_i][a_i] for k in range(len(v))]
+                    valid = [k for k in range(len(col)) if col[k] is not None]
+                    g = np.full(F, nan)
+                    if valid:
+                        lo, hi = cal_freqs[valid[0]], cal_freqs[valid[-1]]
+                        g[(data_freqs >= lo) & (data_freqs <= hi)] = inv(col[valid[0]])
+                    per.append(g)
+                per_input.append(per)
+        out[t] = per_input
+    return out
+
+
+def check_harness_spec(ctx, vcfg, dumps_list):
+    """The two pieces of the harness-side derivation that have a Coq counterpart are cross-checked against it:
+    the stitched solution list of a multi-part product (Model/CalInterp.v `stitch`, the model proved under C14)
+    and the solutions seen by a data set holding dumps [a, b) (Model/Applycal.v `seen`)."""
+    if not ctx.model_ok:
+        return
+    cal = vcfg['cal']
+    for name in vcfg['applycal']:
+        t = name.split('.')[1]
+        st = stitched_events(cal, t)
+        for a, b in dumps_list:
+            mo = ctx.model([[13, [3, a, b, [[e, k] for k, (e, _) in enumerate(st)]]]])[0]
+            mine = sorted(_kept_events([[e, k] for k, (e, _) in enumerate(st)], (a, b)).items())
+            if mo != [list(kv) for kv in mine]:
+                ctx.disagree('route=v4;symptom=harness_seen_differs_from_model', vcfg, mine, mo,
+                             'solutions seen by dumps [%d, %d): harness derivation differs from Model/Applycal.v seen'
+                             % (a, b), kind='tie')
+        n_parts = cal.get('parts', {}).get(t)
+        if not n_parts:
+            continue
+        n_pol, n_ant = len(cal['pol_ordering']), len(cal['antlist'])
+        cases = []
+        for p_i in range(n_pol):
+            for a_i in range(n_ant):
+                def opv(v):
+                    return [] if v is None else [[q_wire(Fraction(v[0])), [0, 1]]]
+                parts = [[[q_wire(e), [opv(row[p_i][a_i]) for row in arr]]
+                          for e, arr in cal['products'].get('%s%d' % (t, q), [])] for q in range(n_parts)]
+                cases.append([14, [6, parts]])
+        outs = ctx.model(cases)
+        k = 0
+        for p_i in range(n_pol):
+            for a_i in range(n_ant):
+                mine = [[q_wire(e), [opv(row[p_i][a_i]) for row in arr]] for e, arr in st]
+                mo = outs[k][0] if outs[k] else None
+                k += 1
+                if mo != mine:
+                    ctx.disagree('route=v4;symptom=harness_stitch_differs_from_model', vcfg, mine, mo,
+                                 'stitched multi-part solutions: harness derivation differs from Model/CalInterp.v '
+                                 'stitch', kind='tie')
+                    return
+
+
+def _shape_of(arr):
+    """2 for a (pol, ant) solution array, 3 for (chan, pol, ant); leaves are None or [re, im]."""
+    from fixtures import c13cal
+    return len(c13cal._shape(arr, 2))
 
 
 def c13cal_shape(a):
@@ -551,9 +776,22 @@ def gen_invert(rng, tier='quick'):
                products=products)
     applycal = ['l1.' + t for t in types]
     rng.shuffle(applycal)
-    return dict(route='invert', T=T, F=F, ants=ants, chan_w=chan_w, cf=1284e6, cal=cal, applycal=applycal,
-                seed=rng.randrange(10 ** 6), shuffle_bls=rng.random() < 0.5,
-                chunks=[compositions(rng, T), compositions(rng, F)])
+    out = dict(route='invert', T=T, F=F, ants=ants, chan_w=chan_w, cf=1284e6, cal=cal, applycal=applycal,
+               seed=rng.randrange(10 ** 6), shuffle_bls=rng.random() < 0.5,
+               chunks=[compositions(rng, T), compositions(rng, F)])
+    # the same store opened with preselect: the loaded part must be restored as well (every product keeps a
+    # solution before the end of the loaded dumps, so that the same solutions apply)
+    pre = {}
+    if rng.random() < 0.7:
+        a = rng.randrange(F)
+        pre['channels'] = [a, rng.randint(a + 1, F)]
+    if rng.random() < 0.3:
+        a = rng.randrange(T)
+        b = rng.randint(a + 1, T)
+        if all(ev[0][0] < b for ev in products.values()):
+            pre['dumps'] = [a, b]
+    out['preselect'] = pre
+    return out
 
 
 def _build(vcfg, arrays=None):
@@ -579,11 +817,71 @@ def _read_corrections(d, ptype, inputs, T):
     return out
 
 
+def _prods_from(corrs, names, cal_freqs):
+    """per-type correction vectors ([input][dump] -> 1-D complex64) -> the products of a direct configuration."""
+    prods = []
+    for name in names:
+        ptype = name.split('.')[1]
+        corr = corrs[ptype]
+        cn = max(len(g) for per in corr for g in per)
+        prods.append(dict(name=name, stream='l1', kb=int(ptype in 'KB'),
+                          own=1 if ptype in 'KB' else (0 if cn == 1 else 2), form='v4',
+                          cal_freqs=[q_wire(f) for f in cal_freqs],
+                          corr=[[[complex_to_wire(z) or None for z in g] for g in per] for per in corr]))
+    return prods
+
+
+def _direct_cfg(inputs, bls, freqs, prods, chunks, vis0, w0, f0):
+    return dict(route='direct', T=int(vis0.shape[0]), labels=inputs,
+                cps=[[inputs.index(a), inputs.index(b)] for a, b in bls],
+                data_freqs=[q_wire(float(f)) for f in freqs], prods=prods,
+                chunks=[chunks[0], chunks[1], [len(bls)]],
+                vis=[[[complex_to_wire(z) or None for z in r] for r in t] for t in vis0],
+                weights=[[[list(float_to_dy(w)) for w in r] for r in t] for t in w0],
+                flags=f0.astype(int).tolist())
+
+
+def _model(ctx, cfg):
+    mo = ctx.model([model_case(cfg)])[0] if ctx.model_ok else None
+    return model_arrays(cfg, mo) if (mo is not None and mo != [-999]) else fallback_arrays(cfg)
+
+
+def _restrict(m, ix, extra=()):
+    out = dict(m)
+    for k in ('vis', 'weights', 'flags', 'spec_vis', 'spec_weights', 'spec_flags', 'vis_exact', 'w_exact', 'corr'):
+        out[k] = m[k][ix]
+        for e in extra:
+            out[k] = out[k][e]
+    return out
+
+
+def _same_corrections(a, b):
+    """[input][dump] -> vectors: equal shapes and values (NaN == NaN)?  -> None or (input, dump, what)."""
+    for i, (pa, pb) in enumerate(zip(a, b)):
+        for t, (ga, gb) in enumerate(zip(pa, pb)):
+            ga, gb = np.atleast_1d(ga), np.atleast_1d(gb)
+            if ga.shape != gb.shape:
+                return i, t, 'shape'
+            eq = same_c(ga.astype(np.complex128), gb.astype(np.complex128))
+            if not eq.all():
+                c = int(np.argwhere(~eq)[0][0])
+                if np.isnan(gb[c]) and not np.isnan(ga[c]):
+                    return i, t, 'finite_where_solution_missing'
+                if np.isnan(ga[c]):
+                    return i, t, 'invalid_where_solution_present'
+                return i, t, 'wrong_value'
+    return None
+
+
 def run_v4(ctx, vcfg):
     from fixtures import c13cal, v4
     if vcfg['route'] == 'invert':
         return run_invert(ctx, vcfg)
     x = None
+    cal = vcfg['cal']
+    n_parts = max([1] + list(cal.get('parts', {}).values()))
+    pre = dict(vcfg.get('preselect') or {})
+    shape_tag = ';parts=%d' % n_parts
     try:
         try:
             x, bls = _build(vcfg)
@@ -591,25 +889,18 @@ def run_v4(ctx, vcfg):
             raw = v4.reopen(x)
             T, F = vcfg['T'], vcfg['F']
             inputs = sorted({i for cp in bls for i in cp})
-            prods = []
-            for name in d.applycal_products:
-                ptype = name.split('.')[1]
-                corr = _read_corrections(d, ptype, inputs, T)
-                cn = max(len(g) for per in corr for g in per)
-                prods.append(dict(name=name, stream='l1', kb=int(ptype in 'KB'),
-                                  own=1 if ptype in 'KB' else (0 if cn == 1 else 2), form='v4',
-                                  cal_freqs=[q_wire(f) for f in c13cal.cal_channel_freqs(vcfg['cal'])],
-                                  corr=[[[complex_to_wire(z) or None for z in g] for g in per] for per in corr]))
+            cal_freqs = c13cal.cal_channel_freqs(cal)
+            read = {name.split('.')[1]: _read_corrections(d, name.split('.')[1], inputs, T)
+                    for name in d.applycal_products}
+            prods = _prods_from(read, list(d.applycal_products), cal_freqs)
             if list(d.applycal_products) != list(vcfg['applycal']):
                 ctx.disagree('route=v4;symptom=products_dropped', vcfg, list(d.applycal_products), vcfg['applycal'],
                              'applycal products differ from the requested ones')
+                return
             vis0, w0, f0 = raw.vis[:], raw.weights[:], raw.raw_flags[:]
-            cfg = dict(route='direct', T=T, labels=inputs, cps=[[inputs.index(a), inputs.index(b)] for a, b in bls],
-                       data_freqs=[q_wire(float(f)) for f in raw.channel_freqs], prods=prods,
-                       chunks=[vcfg['chunks'][0], vcfg['chunks'][1], [len(bls)]],
-                       vis=[[[complex_to_wire(z) or None for z in r] for r in t] for t in vis0],
-                       weights=[[[list(float_to_dy(w)) for w in r] for r in t] for t in w0],
-                       flags=f0.astype(int).tolist())
+            freqs = np.array(raw.channel_freqs)
+            cfg = _direct_cfg(inputs, bls, freqs, prods, vcfg['chunks'], vis0, w0, f0)
+            full = dict(vis=d.vis[:], weights=d.weights[:], flags=d.raw_flags[:])
             sel = dict(vcfg.get('select', {}))
             kw = {}
             if 'dumps' in sel:
@@ -625,29 +916,107 @@ def run_v4(ctx, vcfg):
             impl = dict(vis=d.vis[s1, s2], weights=d.weights[s1, s2], flags=d.raw_flags[s1, s2])
             boolflags = d.flags[s1, s2]
         except Exception as e:
-            ctx.disagree('route=v4;symptom=raises;exc=%s' % type(e).__name__, vcfg, repr(e)[:300], 'a result',
-                         'opening / reading a data set with applycal raised')
+            ctx.disagree('route=v4;symptom=raises;exc=%s' % type(e).__name__ + shape_tag, vcfg, repr(e)[:300],
+                         'a result', 'opening / reading a data set with applycal raised')
             return
-        mo = ctx.model([model_case(cfg)])[0] if ctx.model_ok else None
-        m = model_arrays(cfg, mo) if mo is not None else fallback_arrays(cfg)
-        msel = dict(m)
-        for k in ('vis', 'weights', 'flags', 'spec_vis', 'spec_weights', 'spec_flags', 'vis_exact', 'w_exact', 'corr'):
-            msel[k] = m[k][ix][s1, s2]
-        report = dict(vcfg, derived=dict(maps=m.get('maps'), products=[p['name'] for p in prods]))
-        compare(ctx, report if False else cfg_with(vcfg, cfg), impl, msel, 'v4')
+        # (a) tie: calc_correction + kernels + selection on the corrections katdal derived
+        m = _model(ctx, cfg)
+        case = cfg_with(vcfg, cfg)
+        compare(ctx, case, impl, _restrict(m, ix, [(s1, s2)]), 'v4', sides=('model',))
         if not np.array_equal(boolflags, impl['flags'] != 0):
             ctx.disagree('route=v4;obs=boolflags', vcfg, None, None, 'flags differ from raw_flags != 0')
+        # (b) property, end to end: the spec evaluated on the corrections the SOLUTIONS call for
+        check_harness_spec(ctx, vcfg, [(0, T)] + ([tuple(pre['dumps'])] if 'dumps' in pre else []))
+        want = expected_corrections(vcfg, inputs, freqs, (0, T))
+        for ptype in want:
+            bad = _same_corrections(read[ptype], want[ptype])
+            if bad is not None:
+                ctx.disagree('route=v4;obs=corrections_from_solutions;type=%s;symptom=%s' % (ptype, bad[2]) + shape_tag,
+                             vcfg, dict(input=inputs[bad[0]], dump=bad[1], value=str(read[ptype][bad[0]][bad[1]])),
+                             dict(value=str(want[ptype][bad[0]][bad[1]])),
+                             'correction of %s for %s at dump %d differs from what the solutions call for'
+                             % (ptype, inputs[bad[0]], bad[1]))
+        scfg = dict(cfg, prods=_prods_from(want, vcfg['applycal'], cal_freqs))
+        ms = _model(ctx, scfg)
+        compare(ctx, cfg_with(vcfg, scfg), impl, _restrict(ms, ix, [(s1, s2)]), 'v4', sides=('spec',),
+                spec_name='spec_from_solutions', tag=shape_tag)
+        # (c) the result does not depend on which subset is LOADED: the same store opened with preselect
+        if pre:
+            run_preselected(ctx, vcfg, x, inputs, bls, cal_freqs, freqs, (vis0, w0, f0), full, want, shape_tag)
         ctx.traces_validated += 1
-        ctx.note_case(cfg_key(vcfg), nontrivial=nontrivial(cfg, m),
+        ctx.note_case(cfg_key(vcfg), nontrivial=nontrivial(cfg, ms),
                       sample=dict(route='v4', applycal=vcfg['applycal'], select=vcfg.get('select'), maps=m.get('maps'),
-                                  cal_n_chans=vcfg['cal']['n_chans'], F=F, nan_factors=int(np.isnan(m['corr']).sum())))
+                                  cal_n_chans=cal['n_chans'], F=F, parts=n_parts, preselect=pre,
+                                  nan_factors=int(np.isnan(ms['corr']).sum())))
         ctx.count('route=v4')
+        ctx.count('v4_parts=%d' % n_parts)
+        if n_parts > 1:
+            times = [sorted(e for e, _ in cal['products'].get('B%d' % q, [])) for q in range(n_parts)]
+            ctx.count('v4_parts_in_lock_step=%s' % all(t == times[0] for t in times))
+        ctx.count('v4_preselect=%s' % ('+'.join(sorted(pre)) or 'none'))
         for k in m.get('maps', []):
             ctx.count('v4map=%s' % {0: 'broadcast', 1: 'direct', 2: 'nearest'}[k])
-        ctx.count('v4_nan_factor=%s' % bool(np.isnan(m['corr']).any()))
+        ctx.count('v4_nan_factor=%s' % bool(np.isnan(ms['corr']).any()))
     finally:
         if x is not None:
             v4.cleanup(x)
+
+
+def run_preselected(ctx, vcfg, x, inputs, bls, cal_freqs, freqs, stored, full, want_full, shape_tag):
+    """Open the same store with preselect (channels and/or dumps) + applycal and compare (1) with the fully opened
+    data set restricted to the same dumps and channels (the property: independent of the loaded subset) and
+    (2) with the spec on the corrections the solutions call for on the loaded subset."""
+    from fixtures import v4
+    pre = vcfg['preselect']
+    T, F = vcfg['T'], vcfg['F']
+    t0, t1 = pre.get('dumps', [0, T])
+    c0, c1 = pre.get('channels', [0, F])
+    pk = {k: slice(*v) for k, v in pre.items()}
+    what = '+'.join(sorted(pre))
+    try:
+        dp = v4.reopen(x, dict(preselect=pk), dict(preselect=pk, applycal=list(vcfg['applycal'])))
+        got = dict(vis=dp.vis[:], weights=dp.weights[:], flags=dp.raw_flags[:])
+        products = list(dp.applycal_products)
+    except Exception as e:
+        ctx.disagree('route=v4pre;pre=%s;symptom=raises;exc=%s' % (what, type(e).__name__) + shape_tag, vcfg,
+                     repr(e)[:300], 'a result', 'opening / reading a preselected data set with applycal raised')
+        return
+    if products != list(vcfg['applycal']):
+        ctx.disagree('route=v4pre;pre=%s;symptom=products_dropped' % what, vcfg, products, vcfg['applycal'],
+                     'applycal products of the preselected data set differ from the requested ones')
+        return
+    # corrections the solutions call for when only dumps [t0, t1) are loaded; they differ from those of the whole
+    # data set only for time-interpolated gains whose solutions fall outside the loaded dumps (known finding C13-F3)
+    want = expected_corrections(vcfg, inputs, freqs[c0:c1], (t0, t1))
+    gain_cause = False
+    for ptype in want:
+        cut = [[(g if (len(g) != F or ptype == 'G') else g[c0:c1]) for g in per[t0:t1]] for per in want_full[ptype]]
+        if _same_corrections(want[ptype], cut) is not None:
+            gain_cause = gain_cause or ptype == 'G'
+    for nm in ('vis', 'weights', 'flags'):
+        a, b = got[nm], full[nm][t0:t1, c0:c1]
+        eq = (a.shape == b.shape) and np.all(same_c(a, b) if nm == 'vis' else a == b)
+        if not eq:
+            at = tuple(int(v) for v in np.argwhere(~(same_c(a, b) if nm == 'vis' else a == b))[0]) \
+                if a.shape == b.shape else None
+            sig = 'route=v4pre;pre=%s;obs=%s;symptom=differs_from_fully_opened;cause=other' % (what, nm) + shape_tag
+            if gain_cause:
+                # one signature for the known finding C13-F3, whatever observable shows it first
+                sig = 'route=v4pre;symptom=differs_from_fully_opened;cause=gain_solutions_outside_loaded_dumps'
+            ctx.disagree(sig, vcfg,
+                         dict(at=at, value=str(a[at]) if at else list(a.shape)),
+                         dict(at=at, value=str(b[at]) if at else list(b.shape)),
+                         'data set opened with preselect=%s differs from the same dumps/channels of the fully opened '
+                         'one in %s' % (pre, nm))
+            if gain_cause:
+                break
+    vis0, w0, f0 = [a[t0:t1, c0:c1] for a in stored]
+    pcfg = _direct_cfg(inputs, bls, freqs[c0:c1], _prods_from(want, vcfg['applycal'], cal_freqs),
+                       [[t1 - t0], [c1 - c0]], vis0, w0, f0)
+    mp = _model(ctx, pcfg)
+    compare(ctx, cfg_with(vcfg, pcfg), got, mp, 'v4pre', sides=('spec',), spec_name='spec_from_solutions',
+            tag=';pre=%s' % what + shape_tag)
+    ctx.traces_validated += 1
 
 
 class cfg_with(dict):
@@ -707,6 +1076,34 @@ def run_invert(ctx, vcfg):
                          dict(at=at, value=str(got[at]) if at else None, products=list(x.d.applycal_products)),
                          dict(at=at, value=str(clean[at]) if at else None),
                          'data corrupted by known gains are not restored within %g relative' % REL_TOL)
+        pre = vcfg.get('preselect') or {}
+        if pre:
+            t0, t1 = pre.get('dumps', [0, T])
+            c0, c1 = pre.get('channels', [0, F])
+            pk = {k: slice(*v) for k, v in pre.items()}
+            what = '+'.join(sorted(pre))
+            try:
+                dp = v4.reopen(x, dict(preselect=pk), dict(preselect=pk, applycal=list(vcfg['applycal'])))
+                gotp = dp.vis[:].astype(np.complex128)
+                prods_ok = list(dp.applycal_products) == list(vcfg['applycal'])
+            except Exception as e:
+                ctx.disagree('route=invert;pre=%s;symptom=raises;exc=%s' % (what, type(e).__name__), vcfg,
+                             repr(e)[:300], 'a result', 'opening / reading a preselected data set with applycal raised')
+                return
+            want = clean[t0:t1, c0:c1]
+            errp = np.maximum(np.abs(gotp.real - want.real), np.abs(gotp.imag - want.imag)) \
+                if gotp.shape == want.shape else np.full(want.shape, np.inf)
+            badp = ~(errp <= tol[t0:t1, c0:c1])
+            if badp.any() or not prods_ok:
+                at = tuple(int(v) for v in np.argwhere(badp)[0]) if badp.any() else None
+                ctx.disagree('route=invert;pre=%s;symptom=loaded_subset_not_restored' % what, vcfg,
+                             dict(at=at, value=str(gotp[at]) if at and gotp.shape == want.shape else list(gotp.shape),
+                                  products=list(dp.applycal_products)),
+                             dict(at=at, value=str(want[at]) if at else None),
+                             'data corrupted by known gains, opened with preselect=%s, are not restored within %g '
+                             'relative' % (pre, REL_TOL))
+            ctx.traces_validated += 1
+            ctx.count('invert_preselect=%s' % what)
         ctx.traces_validated += 1
         ctx.note_case(cfg_key(vcfg), nontrivial=True,
                       sample=dict(route='invert', applycal=vcfg['applycal'], max_rel_err=float((err / np.maximum(np.abs(clean), 1)).max())))
@@ -742,9 +1139,11 @@ def run(ctx):
             ctx.disagree('route=direct;symptom=model_rejects_case', cfg, None, mo, 'wire format error', kind='tie')
             continue
         run_direct(ctx, cfg, mo)
-    for _ in range(ctx.scale(30, 400)):
-        run_v4(ctx, gen_v4(random.Random(ctx.rng.getrandbits(48)), ctx.tier))
-    for _ in range(ctx.scale(10, 100)):
+    for k in range(ctx.scale(40, 500)):
+        # a third of the cases with a multi-part B product, a third reopened with a channel (+ dumps) preselection
+        force = [dict(parts=True), dict(pre=['channels', 'both'][k // 3 % 2]), None][k % 3]
+        run_v4(ctx, gen_v4(random.Random(ctx.rng.getrandbits(48)), ctx.tier, force))
+    for _ in range(ctx.scale(12, 120)):
         run_v4(ctx, gen_invert(random.Random(ctx.rng.getrandbits(48)), ctx.tier))
     # numpy's reciprocal of zero is NaN (the model's Cinv): probed on every run
     z = np.reciprocal(np.array([0, 2, 1j, 1 + 1j], np.complex64))
